@@ -295,11 +295,12 @@ def oracle(pw, outs, ctor_default=False):
 
 def classify_failure(pw, outs, exp, obs):
     """input class of an oracle failure"""
-    n = max(exp[1].count("c"), obs[1].count("c"))
-    used = [k for k, _ in outs[:n]]
+    ncalls = obs[1].count("c") + (1 if obs[0] == ["pending"] else 0)
     on_timeout = pw.get("on_timeout") is None or bool(pw.get("on_timeout"))
-    if "transportOther" in used and on_timeout:
-        # would the observation be as prescribed if other transport errors were simply not in the script prefix?
+    first = next((j for j, (k, _) in enumerate(outs) if k == "transportOther"), None)
+    if first is not None and on_timeout and ncalls > first + 1 and exp[1].count("c") == first + 1:
+        # the delegate was invoked again after an other transport error that should have propagated:
+        # the defect fixed by 9eaa174 (trailing `except TransportError` swallowing it and retrying without a pause)
         return "other-transport-error-retried-without-wait"
     return "retry-semantics"
 
@@ -368,7 +369,7 @@ def param_grid(L):
 
 def gen_exhaustive(ctx):
     """every outcome sequence of length <= L over the 10 classes x the parameter grid
-    (quick: L = 3 sampled down to the budget; thorough: L = 5 complete, sharded)"""
+    (quick: L = 3 complete; thorough: L = 5 complete, sharded)"""
     if ctx.tier == "thorough":
         L = 5
         grid = param_grid(L)
@@ -386,15 +387,13 @@ def gen_exhaustive(ctx):
         L = 3
         grid = param_grid(L)
         seqs = [s for n in range(0, L + 1) for s in itertools.product(KINDS, repeat=n)]
-        # complete over the sequences, parameter combination rotated + sampled
-        per = max(1, ctx.budget // max(1, len(seqs) // ctx.nshards))
         for i, seq in enumerate(seqs):
             if i % ctx.nshards != ctx.shard:
                 continue
             outs = [[k, (i + j) % NVARIANTS] for j, k in enumerate(seq)]
-            for pw in ctx.rng.sample(grid, min(per, len(grid))):
+            for pw in grid:
                 yield {"p": pw, "outs": outs}
-        ctx.notes["scope"] = f"all {len(seqs)} sequences of length <= {L}, {per} sampled parameter combinations each (of {len(grid)})"
+        ctx.notes["scope"] = f"all {len(seqs)} outcome sequences of length <= {L} x all {len(grid)} parameter combinations"
 
 
 def _shape(pw):
@@ -554,6 +553,8 @@ REG_SCRIPTS = [
     ["connError", "connError", "connError"],
     ["dictOk"],
     ["otherExc"],
+    ["transportOther", "dictOk"],
+    ["connError", "transportOther", "dictOk"],
     [],
 ]
 
@@ -583,14 +584,20 @@ def gen_registered(ctx):
             k = rng.choice([1, 2, 3, 4, 6])
             pw = gen_params(rng, k)
             pw["ctor"] = None
-            yield {"op": op, "p": pw, "outs": [o for o in gen_script(rng, k) if o[0] != "transportOther"]}
+            yield {"op": op, "p": pw, "outs": gen_script(rng, k)}
 
 
 def run_registered(ctx, case):
     from esrally.driver import runner
     from esrally import exceptions
 
-    rows = _registered()
+    try:
+        rows = _registered()
+    except ValueError as e:
+        # register_default_runners no longer has the shape the translator recognises: broken obligation, not a harness error
+        ctx.diff("registration table", "recognised shape", str(e))
+        ctx.sig(["table", "unrecognised"], nontrivial=False)
+        return
     op, pw, outs = case["op"], case["p"], case["outs"]
     row = rows.get(op)
     if row is None:
@@ -649,6 +656,6 @@ def run_registered(ctx, case):
 
 STREAMS = [
     Stream("random_scripts", gen_random, run_retry, quick=24000, thorough=1500000, shards=16),
-    Stream("all_short_scripts", gen_exhaustive, run_retry, quick=12000, thorough=1, shards=16, exhaustive_thorough=True),
+    Stream("all_short_scripts", gen_exhaustive, run_retry, quick=24442, thorough=1, shards=16, exhaustive_thorough=True),
     Stream("registered_ops", gen_registered, run_registered, quick=4000, thorough=60000, shards=8),
 ]
